@@ -34,13 +34,19 @@ func VfC09_ParseLiteral() {
 	}
 	want := new(big.Int)
 	var lit string
+	reprint := true
 	switch form {
 	case 0, 1: // decimal, possibly with leading zeros; 1: negative
+		// three digits (so that a leading zero can precede two significant
+		// digits, e.g. 010) at i64; two at i8 in the quick tier
 		maxDigits := 2
-		if vfTier() > 0 {
+		if vfTier() > 0 || w == 64 {
 			maxDigits = 3
 		}
 		n := vfLen("n", 1, maxDigits)
+		// the print / re-parse leg is kept to the shorter literals in the quick
+		// tier (the decimal digits of the printed value are a division chain)
+		reprint = n <= 2 || vfTier() > 0
 		d := vfString("d", n)
 		ten := big.NewInt(10)
 		for i := 0; i < n; i++ {
@@ -114,6 +120,9 @@ func VfC09_ParseLiteral() {
 		return
 	}
 	vfAssert("C09.parse.value", c.X.Cmp(want) == 0)
+	if !reprint {
+		return
+	}
 	y := m.String()
 	m2, err2 := ParseString("t.ll", y)
 	vfAssert("C09.parse.print-accepted", err2 == nil)
